@@ -281,7 +281,8 @@ def translate_item(item, cache):
         if expr is None:
             raise Untranslatable("slice part absent")
     if isinstance(expr, ast.AugAssign):
-        raise Untranslatable("augmented assignment")
+        # `x op= e` is translated as the expression `x op e`
+        expr = ast.BinOp(left=expr.target, op=expr.op, right=expr.value)
     text, ty = Tr(item).tr(expr)
     ret = item["ret"]
     if ret == "Int" and ty != "Int":
@@ -290,7 +291,8 @@ def translate_item(item, cache):
         text = f"(({text} : Int) : Rat)"
     if ret == "Bool":
         text = f"decide {text}"
-    seg = ast.get_source_segment(src, expr) or ""
+    seg = (ast.get_source_segment(src, expr) if hasattr(expr, "lineno") else None) \
+        or src.split("\n")[lineno - 1].strip()
     params = " ".join(f"({p} : {t})" for p, t in item["params"])
     return (f"/-- `{item['file']}:{lineno}` in `{item['func']}`: `{' '.join(seg.split())}` -/\n"
             f"def {item['name']} {params} : {ret} :=\n  {text}\n")
